@@ -95,10 +95,22 @@ def run(ctx) -> None:
     a0, a1 = (ast.unparse(x) for x in z.args[:2])
     assigns = {st.targets[0].id: st.value for st in walk_no_nested(gb.node)
                if isinstance(st, ast.Assign) and isinstance(st.targets[0], ast.Name)}
-    good = ("np.ndindex(" in a0 and "itertools.product(*" in a1
-            and "start_stops" in assigns and call_name(assigns["start_stops"]) == "chunk_ranges"
-            and ast.unparse(assigns["start_stops"].args[0]) == "chunks"
-            and "chunks" in assigns and call_name(assigns["chunks"]) == "self._validate_ensemble_chunks")
+
+    def res(e):
+        seen = set()
+        while isinstance(e, ast.Name) and e.id in assigns and e.id not in seen:
+            seen.add(e.id)
+            e = assigns[e.id]
+        return e
+
+    good = False
+    if len(z.args) >= 2 and isinstance(z.args[0], ast.Call) and (call_name(z.args[0]) or "").endswith("ndindex") and \
+            isinstance(z.args[1], ast.Call) and (call_name(z.args[1]) or "").endswith("product") and z.args[1].args and \
+            isinstance(z.args[1].args[0], ast.Starred):
+        ranges = res(z.args[1].args[0].value)
+        if isinstance(ranges, ast.Call) and call_name(ranges) == "chunk_ranges" and ranges.args:
+            ch = res(ranges.args[0])
+            good = isinstance(ch, ast.Call) and call_name(ch) == "self._validate_ensemble_chunks"
     ctx.check(good, "R-BLOCKORDER", f"{gb.qualname}:pairing", gb.loc(zips[0]),
               "block indices (ndindex) zipped with product(chunk_ranges(validated chunks))",
               f"generate_blocks pairs {a0} with {a1}", "pairing")
